@@ -332,3 +332,58 @@ func VerifC04_ElementSegmentWritesSharedTable() {
 	}
 	verifrt.Cover("written")
 }
+
+// VerifC04_FunctionImportTypes: a function import is accepted exactly when its declared type equals the function's real type
+// - also when the function is reached through a forwarder that itself imports it (and re-exports it) among imports of
+// other kinds in every order, so that import indexes, function indexes and type indexes all differ.
+func VerifC04_FunctionImportTypes() {
+	ctx := context.Background()
+	w := newVerifWorld(ctx)
+	// A: memory "mem", g: ()->(), f: (i64)->(i64)
+	a := &verifModule{tableMin: -1, hasMem: true, memMin: 1, memMax: 1, exports: []verifExport{{name: "mem", kind: 2, index: 0}},
+		funcs: []verifFunc{
+			{export: "g", body: []byte{0x01}},
+			{params: []byte{vI64}, results: []byte{vI64}, export: "f", body: []byte{0x20, 0x00}},
+		}}
+	_, err := w.guest(ctx, a, "A", nil, false)
+	verifrt.Assert(err == nil, "exporter accepted")
+	if err != nil {
+		return
+	}
+	// B: imports g, mem and f from A in one of 6 orders and re-exports f
+	impG := verifImport{module: "A", name: "g"}
+	impM := verifImport{module: "A", name: "mem", kind: 2, desc: vLimits(1, 1)}
+	impF := verifImport{module: "A", name: "f", params: []byte{vI64}, results: []byte{vI64}}
+	orders := [][3]verifImport{{impG, impM, impF}, {impG, impF, impM}, {impM, impG, impF}, {impM, impF, impG}, {impF, impG, impM}, {impF, impM, impG}}
+	ord := orders[verifrt.Choose("order", 6)]
+	fIndex := uint32(0) // function index of f inside B = number of function imports before it
+	for _, im := range ord {
+		if im.name == "f" {
+			break
+		}
+		if im.kind == 0 {
+			fIndex++
+		}
+	}
+	b := &verifModule{tableMin: -1, imports: ord[:], exports: []verifExport{{name: "f", kind: 0, index: fIndex}},
+		funcs: []verifFunc{{export: "nop", body: []byte{0x01}}}}
+	_, err = w.guest(ctx, b, "B", nil, false)
+	verifrt.Assert(err == nil, "forwarder accepted")
+	if err != nil {
+		return
+	}
+	// C: imports f - from A directly or through B - with a declared type that is right or wrong
+	from := []string{"A", "B"}[verifrt.Choose("through", 2)]
+	decl := [][2][]byte{{{vI64}, {vI64}}, {{}, {}}, {{vI32}, {vI64}}, {{vI64}, {}}}[verifrt.Choose("declared", 4)]
+	c := &verifModule{tableMin: -1, imports: []verifImport{{module: from, name: "f", params: decl[0], results: decl[1]}},
+		funcs: []verifFunc{{params: []byte{vI64}, results: []byte{vI64}, export: "run", body: []byte{0x20, 0x00}}}}
+	vc, err := w.guest(ctx, c, "C", nil, false)
+	right := len(decl[0]) == 1 && decl[0][0] == vI64 && len(decl[1]) == 1
+	verifrt.Assert((err == nil) == right, "a function import is accepted exactly when its declared type is the function's type")
+	if err == nil {
+		_ = vc
+		verifrt.Cover("accepted")
+	} else {
+		verifrt.Cover("refused")
+	}
+}
